@@ -69,6 +69,7 @@ Fixpoint run_c (e : denv) (hasd : bool) (r : Z) (st : cstmt) (s : cst) {struct s
   | CIfLogLocal b => if d_log_local e then block b s else XOk s
   | CIfReq b => if r =? 0 then XOk s else block b s
   | CLogFailure => if logfailure_renders_delivery && d_repr_raises e then XRaise s else XOk s
+  | CLogFailureGuarded => XOk s       (* a log entry that raises is itself logged; callFailed goes on *)
   | CRenderLog => if d_render_raises e then XRaise s else XOk s
   | CLog => XOk s
   | CAssertActive => if is_active r s then XOk s else XRaise s
